@@ -149,7 +149,7 @@ func classify(c Case) (bool, []string) {
 func TestDeterminism(t *testing.T) {
 	harness.Run(t, harness.Spec[Case]{
 		Name: "determinism", N: 2500,
-		Rule: "histories biased to what breaks ordering: 3..8 children with 4..12 versions each, frequent same-second clusters, parents with more than a dozen updates (Go's sort leaves insertion sort above 12 elements), commit and pre-commit regimes, with and without deletions/missing histories; every case is annotated 8 times on freshly built equal input (Go randomises map iteration per range statement); oracle = all runs fail or all succeed with identical serialisation of annotated children and update lists, and every update list is sorted by (index, timestamp, version); non-trivial = a parent with >= 13 updates and at least two updates sharing (index, timestamp)",
+		Rule: "histories biased to what breaks ordering: 3..8 children with 4..12 versions each, frequent same-second clusters, parents with more than a dozen updates (Go's sort leaves insertion sort above 12 elements), commit and pre-commit regimes, with and without deletions/missing histories; relation parents of type route or multipolygon (way members then have located nodes and outer/inner roles, so the serialisation includes their orientation), a third of them with child ids unique per kind only (node/1, way/1 and relation/1 in one parent); every case is annotated 8 times on freshly built equal input (Go randomises map iteration per range statement); oracle = all runs fail or all succeed with identical serialisation of annotated children and update lists, and every update list is sorted by (index, timestamp, version); non-trivial = a parent with >= 13 updates and at least two updates sharing (index, timestamp)",
 		Gen: func(t *rapid.T) Case {
 			o := histgen.Opts{ManyUpdates: true, NoErrors: rapid.IntRange(0, 5).Draw(t, "noErrors") != 0}
 			if rapid.IntRange(0, 5).Draw(t, "pre") == 0 {
